@@ -3,7 +3,7 @@ import ast
 from ..fn import World
 from ..index import AnalysisError, dotted
 from ..astutil import text, short, endswith, calls_in, walk_no_nested
-from ._h_F import ifn, Res, res_of, atoms
+from ._h_F import ifn, Res, res_of, atoms, sole_arg
 
 from . import _c22_idem
 
@@ -50,7 +50,7 @@ def _resolves_to_renderer(w, fn, call, p):
   """call(p) resolves to a repo function all of whose own returns are renderer calls on its
   parameter (one level)."""
   from ..callgraph import CallGraph
-  if [text(a) for a in call.args] != [p] or call.keywords:
+  if sole_arg(call) is None or text(sole_arg(call)) != p:
     return False
   tg = CallGraph(w).resolve(fn, call)
   if not tg or len(tg) > 1:
@@ -63,7 +63,7 @@ def _resolves_to_renderer(w, fn, call, p):
   rets = gr.returns()
   return bool(rets) and not gr.falls_off_end() and all(
     isinstance(leaf, ast.Call) and dotted(leaf.func) in RENDERERS and
-    [text(a) for a in leaf.args] == [gp[0]]
+    sole_arg(leaf) is not None and text(sole_arg(leaf)) == gp[0]
     for (n, v) in rets for (f, leaf) in Res.cases(v))
 
 
@@ -107,7 +107,7 @@ def r1_totality(run, w):
   for (n, v) in alt:
     for (leaf, at) in r.alternatives(v, n.id):
       d = dotted(leaf.func) if isinstance(leaf, ast.Call) else None
-      if d in RENDERERS and [text(a) for a in leaf.args] == [p] and not leaf.keywords:
+      if d in RENDERERS and sole_arg(leaf) is not None and text(sole_arg(leaf)) == p:
         continue
       if isinstance(leaf, ast.JoinedStr) or (isinstance(leaf, ast.Constant) and
                                              isinstance(leaf.value, str)):
